@@ -26,7 +26,7 @@ func (w *World) newEnc(fn *ssa.Function, con *FuncContract, prop string) *FnEnc 
 	return &FnEnc{W: w, fn: fn, con: con, prop: prop,
 		vals: map[ssa.Value]Val{}, guard: map[*ssa.BasicBlock]string{}, exit: map[*ssa.BasicBlock]State{}, entry: map[*ssa.BasicBlock]State{},
 		edge: map[[2]int]string{}, heapVars: map[string]HeapVar{}, rangeVis: map[ssa.Value]HeapVar{}, rangeMap: map[ssa.Value]Val{},
-		debugNames: map[string][]debugBinding{}, lets: map[string]Val{}, calleeUsed: map[string]bool{}, modRefsFn: map[string][]modT{}}
+		returnEnsuresBound: map[int]int{}, debugNames: map[string][]debugBinding{}, lets: map[string]Val{}, calleeUsed: map[string]bool{}, modRefsFn: map[string][]modT{}}
 }
 
 func (e *FnEnc) run() {
@@ -156,6 +156,13 @@ func (e *FnEnc) run() {
 	order := e.rpo()
 	for _, b := range order {
 		e.block(b)
+	}
+	if e.con != nil {
+		for k, c := range e.con.ReturnEnsures {
+			if clauseActive(c, e.prop) && e.returnEnsuresBound[k] == 0 {
+				e.bindFail(fmt.Sprintf("return-ensures%d", k+1), "the clause is in scope at no return: "+c.Src)
+			}
+		}
 	}
 }
 
@@ -804,6 +811,19 @@ func (e *FnEnc) ret(r *ssa.Return) {
 		}
 		e.obligeClause(env, c, fmt.Sprintf("ensures%d@%s", k+1, e.posOf(r)), "post", e.curGuard, e.posOf(r))
 	}
+	for k, c := range e.con.ReturnEnsures {
+		if !clauseActive(c, e.prop) {
+			continue
+		}
+		renv := e.specEnv(e.cur, e.initState, nil)
+		renv.site = e.curBlock
+		e.bindResults(renv, e.fn.Signature, res)
+		if _, err := renv.EvalBool(c.Expr); err != nil {
+			continue // the clause speaks about locals that are not in scope at this return
+		}
+		e.returnEnsuresBound[k]++
+		e.obligeClause(renv, c, fmt.Sprintf("return-ensures%d@%s", k+1, e.posOf(r)), "post", e.curGuard, e.posOf(r))
+	}
 	for _, li := range e.loopList {
 		lc := e.con.Loops[li.ordinal]
 		if lc == nil || len(lc.ReturnEnsures) == 0 {
@@ -1131,7 +1151,7 @@ func (e *FnEnc) contractCall(v ssa.Value, con *FuncContract, callee *ssa.Functio
 		e.assume(e.frameFact(nw, old, "", mods[name]))
 	}
 	if con.NoFrame {
-		e.havocAll(con.Name + " (noframe contract)")
+		e.havocAll(con.Name+" (noframe contract)", args...)
 	}
 	oa := e.alloc()
 	na := e.declare("alloc", "Int")
